@@ -523,6 +523,10 @@ pack_return_value(ostream &out, int indent_level,
       << "return PyLong_FromUnsignedLong(" << return_expr << ");\n";
 
   } else if (TypeManager::is_integer(type)) {
+    if (TypeManager::is_enum(type)) {
+      // A scoped enum does not implicitly convert to an integer.
+      return_expr = "(long)(" + return_expr + ")";
+    }
     out << "#if PY_MAJOR_VERSION >= 3\n";
     indent(out, indent_level)
       << "return PyLong_FromLong(" << return_expr << ");\n";
